@@ -237,7 +237,11 @@ func addTimer(d int64, what string, fire func()) *vtimer {
 		d = 0
 	}
 	s.tseq++
-	t := &vtimer{when: s.now + d, seq: s.tseq, fire: fire, active: true, what: what}
+	when := s.now + d
+	if when < s.now { // saturate like the real runtime does (when < 0 => maxWhen)
+		when = 1<<63 - 1
+	}
+	t := &vtimer{when: when, seq: s.tseq, fire: fire, active: true, what: what}
 	s.timers = append(s.timers, t)
 	return t
 }
